@@ -74,6 +74,14 @@ func lockstepRound(r *c01.Schedule, who []int, hook func()) int {
 	return honestCommits(s)
 }
 
+// newRun: the shared schedule runner with the forwarded-lock oracle on (every ELECTION_VOTE of a locked honest replica
+// carries its lock together with the block and results it certifies).
+func newRun(o c01.Sink, name string, cfg bftsim.Config) *c01.Schedule {
+	r := c01.NewRun(o, name, cfg)
+	r.CheckForwardedLock("C15:lock-forwarded-without-proposal")
+	return r
+}
+
 func corpusCfg(salt uint64) bftsim.Config {
 	return bftsim.Config{N: 4, Powers: []uint64{1, 1, 1, 1}, Byz: []int{0}, Root0: 10, Salt: salt, RealTimeouts: true}
 }
@@ -91,7 +99,7 @@ func verdict(o *drv.Out, r *c01.Schedule, sig, what string, ok bool, detail stri
 // adopted it, lost its block, interrupted, and the height never committed again (every later leader proposed a nil
 // block). It must now be ignored: round 0 commits.
 func CorpusElectionVoteStall(o *drv.Out) {
-	r := c01.NewRun(o, "corpus/L1-election-vote-midround-stall", corpusCfg(7))
+	r := newRun(o, "corpus/L1-election-vote-midround-stall", corpusCfg(7))
 	s := r.Sim()
 	attacked := false
 	n := lockstepRound(r, others(s), func() {
@@ -119,7 +127,7 @@ func CorpusElectionVoteStall(o *drv.Out) {
 // CorpusLeaderMessageEcho is L2 (repaired by e2ecd83): a non-leader re-signs the leader's PRECOMMIT and sends it after the
 // genuine one; it overwrote the stored message and CheckProposerAndProposal interrupted every replica, in every round.
 func CorpusLeaderMessageEcho(o *drv.Out) {
-	r := c01.NewRun(o, "corpus/L2-leader-message-overwrite", corpusCfg(7))
+	r := newRun(o, "corpus/L2-leader-message-overwrite", corpusCfg(7))
 	s := r.Sim()
 	echoed, rejected := false, 0
 	n := lockstepRound(r, []int{1, 2, 3}, func() {
@@ -153,7 +161,7 @@ func CorpusStaleElectionCertificate(o *drv.Out) {
 			break
 		}
 	}
-	r := c01.NewRun(o, "corpus/L3-stale-election-certificate", cfg)
+	r := newRun(o, "corpus/L3-stale-election-certificate", cfg)
 	s := r.Sim()
 	all, hon := others(s), []int{1, 2, 3}
 	for _, i := range all {
@@ -210,7 +218,7 @@ func CorpusStaleElectionCertificate(o *drv.Out) {
 // CorpusPacemakerPush is L4 = F7 (repaired by 0fe2116): with four equal validators half of the +2/3 threshold was 1, so
 // one validator's pacemaker message claiming round 1,000,000 moved every replica there (ELECTION wait 833 h).
 func CorpusPacemakerPush(o *drv.Out) {
-	r := c01.NewRun(o, "corpus/L4-pacemaker-single-validator-push", corpusCfg(7))
+	r := newRun(o, "corpus/L4-pacemaker-single-validator-push", corpusCfg(7))
 	s := r.Sim()
 	hon := []int{1, 2, 3}
 	for _, e := range s.ByzPacemaker(0, 10, 1_000_000, hon) {
@@ -262,7 +270,7 @@ func CorpusStaleBlockHash(o *drv.Out, variantALeads bool) {
 	if variantALeads {
 		name += "/lower-locked-replica-leads"
 	}
-	r := c01.NewRun(o, name, cfg)
+	r := newRun(o, name, cfg)
 	s := r.Sim()
 	all := others(s)
 	step := func(who []int) {
@@ -357,7 +365,7 @@ func CorpusLockedAtRootBoundary(o *drv.Out, lrhu uint64) {
 	const A = 1
 	cfg := corpusCfg(1)
 	cfg.LastRootHeightUpdated = lrhu
-	r := c01.NewRun(o, fmt.Sprintf("corpus/locked-replica-at-equal-root-height/lrhu%d-root10", lrhu), cfg)
+	r := newRun(o, fmt.Sprintf("corpus/locked-replica-at-equal-root-height/lrhu%d-root10", lrhu), cfg)
 	s := r.Sim()
 	all := others(s)
 	step := func(who []int) {
@@ -416,6 +424,87 @@ func CorpusLockedAtRootBoundary(o *drv.Out, lrhu uint64) {
 	r.End()
 }
 
+// CorpusPlantedPartialQC: round 0 runs with all four validators; the PRECOMMIT reaches `locked` replicas only (they lock), and
+// validator 0 — leader or not — sends each of them a leader-style PRECOMMIT message for the same view whose certificate has
+// the locked certificate's view, another payload and only its own signature (filed as a partial QC: possible double-sign
+// evidence against validator 0), before or after they lock. The round fails, validator 0 goes silent, delivery is
+// synchronous from round 1 on and replicas 1, 2, 3 are all needed: the first round with a live leader must commit, so the
+// leader has to accept the locked replicas' ELECTION_VOTEs — whatever they did with the partial QC must not have touched
+// the lock they forward (seeded change pending9-C15).
+func CorpusPlantedPartialQC(o *drv.Out, locked []int, afterLock bool) {
+	cfg := corpusCfg(1)
+	when := "before-lock"
+	if afterLock {
+		when = "after-lock"
+	}
+	r := newRun(o, fmt.Sprintf("corpus/planted-partial-qc/locked%v-%s", locked, when), cfg)
+	s := r.Sim()
+	all := others(s)
+	step := func(who []int) {
+		for _, i := range who {
+			if !c01.Committed(s, i) {
+				r.Phase(i)
+			}
+		}
+	}
+	isLocked := func(i int) bool {
+		for _, l := range locked {
+			if l == i {
+				return true
+			}
+		}
+		return false
+	}
+	deliver := func(f func(e *bftsim.Envelope) bool) {
+		for _, e := range s.Take(func(e *bftsim.Envelope) bool { return e.Kind != "ELECTION" && (f == nil || f(e)) }) {
+			r.Deliver(e)
+		}
+		s.DropAll()
+	}
+	planted := 0
+	plant := func() {
+		envs := s.ByzPlantPartialQC(0, bftsim.VR{Root: 10, Round: 0}, lib.Phase_PROPOSE_VOTE, locked)
+		r.Flush() // the signature validator 0 put on the other payload is a vote event of the history
+		for _, e := range envs {
+			r.Deliver(e)
+			planted++
+		}
+		s.Take(func(*bftsim.Envelope) bool { return true })
+		r.Log("byz 0 sends %v a PRECOMMIT message whose PROPOSE_VOTE certificate (view 10.0) has another payload and only its own signature", locked)
+		r.Out().Count("byz:plant-partial-qc")
+	}
+	for k := 0; k < 4; k++ { // ELECTION .. PROPOSE_VOTE of round 0
+		step(all)
+		deliver(nil)
+	}
+	step(all) // PRECOMMIT
+	deliver(func(e *bftsim.Envelope) bool { return isLocked(e.To) })
+	if !afterLock {
+		plant()
+	}
+	step(all) // PRECOMMIT_VOTE: the chosen replicas lock, the others interrupt
+	s.DropAll()
+	if afterLock {
+		plant()
+	}
+	for _, i := range all {
+		for k := 0; s.Nodes[i].B.Phase != bft.Election && k < 12; k++ {
+			r.Phase(i)
+		}
+	}
+	s.DropAll()
+	locks, filed := "", 0
+	for _, i := range locked {
+		locks += fmt.Sprintf("%d: %s; ", i, s.State(i))
+		filed += len(s.Nodes[i].B.PartialQCs)
+	}
+	rounds, firstLive, n := syncUntilCommit(r, []int{1, 2, 3}, 0, 6)
+	verdict(o, r, "C15:no-commit-after-gst:partial-qc-planted-on-locked-replica",
+		fmt.Sprintf("locked replicas %v hold a partial QC for the view of their lock; they are needed for +2/3", locked), planted == len(locked) && filed == len(locked) && n > 0 && rounds-1 == firstLive,
+		fmt.Sprintf("after round 0: %spartial QCs filed: %d; first round with a live leader: +%d, committed after +%d rounds: %s", locks, filed, firstLive, rounds-1, c01.CommitsStr(s)))
+	r.End()
+}
+
 // syncUntilCommit runs lock-step synchronous rounds for `live` (candidate announcements dropped: every round is led by the
 // fallback leader) until an honest commit or `max` rounds; returns the rounds run, the index of the first round with a
 // live leader, and the honest commits.
@@ -466,7 +555,7 @@ func CorpusLockSurvivesCommitteeChange(o *drv.Out) {
 			break
 		}
 	}
-	r := c01.NewRun(o, "corpus/lock-survives-committee-change", cfg)
+	r := newRun(o, "corpus/lock-survives-committee-change", cfg)
 	s := r.Sim()
 	live := []int{1, 2, 3}
 	step := func() {
@@ -515,7 +604,7 @@ func CorpusPhaseSplitInterrupt(o *drv.Out, ts [7]int) {
 			break
 		}
 	}
-	r := c01.NewRun(o, fmt.Sprintf("corpus/phase-split-interrupt/timeouts%v", ts), cfg)
+	r := newRun(o, fmt.Sprintf("corpus/phase-split-interrupt/timeouts%v", ts), cfg)
 	s := r.Sim()
 	t := &timed{r: r, s: s, o: o, planA: -1, next: []int64{-1, 0, 0, 0}, roundStart: make([]int64, 4)}
 	firstLive := uint64(0)
@@ -612,7 +701,7 @@ func CorpusOldRootLockVsNewRootLock(o *drv.Out, n int, crash, old []int) {
 			break
 		}
 	}
-	r := c01.NewRun(o, fmt.Sprintf("corpus/old-root-lock-vs-new-root-lock/n%d", n), cfg)
+	r := newRun(o, fmt.Sprintf("corpus/old-root-lock-vs-new-root-lock/n%d", n), cfg)
 	s := r.Sim()
 	all := others(s)
 	step := func(who []int) {
